@@ -311,69 +311,125 @@ Proof. destruct l; reflexivity. Qed.
 Lemma dropN_0 (l : bytes) : dropN 0 l = l.
 Proof. destruct l; reflexivity. Qed.
 
-Lemma run_stream_blocks g : forall sched p rest ds rs consumed, Forall ign_nodata sched ->
-  Forall wf_block rs -> p ++ rest = concat rs -> strictpre p rs ->
-  consumed = lenN (concat ds ++ p) ->
-  exists ds' rs' p' rest' consumed',
-    run_stream g sched (mkS 0 p) rest (rev ds) consumed = (SOk, ds', consumed', mkS 0 p') /\
-    ds ++ rs = ds' ++ rs' /\ p' ++ rest' = concat rs' /\ strictpre p' rs' /\ Forall wf_block rs' /\
-    consumed' = lenN (concat ds' ++ p') /\ (exists mid, ds' = ds ++ mid).
+(* the zero-length-read iteration on a buffer that holds a prefix of the coming blocks *)
+Lemma settle_blocks g rs u rest acc :
+  Forall wf_block rs -> u ++ rest = concat rs -> lenN u <= c_recvBufSize ->
+  exists nb rs' u', rs = nb ++ rs' /\ u = concat nb ++ u' /\ u' ++ rest = concat rs' /\ Forall wf_block rs' /\
+    settle g (mkS 0 u) acc = (PBreak, mkS 0 u', rev nb ++ acc) /\ lenN u' < c_recvBufSize /\
+    (strictpre u rs -> nb = [] /\ u' = u).
 Proof.
-  induction sched as [|it sched IH]; intros p rest ds rs consumed Hnd Hwf Hcat Hp Hc.
-  - exists ds, rs, p, rest, consumed. cbn [run_stream]. rewrite rev_involutive.
-    repeat split; try assumption; try reflexivity. exists []. now rewrite app_nil_r.
-  - cbn [run_stream]. unfold recvOff. cbn [tlvOff unread].
-    pose proof (strictpre_short _ _ Hwf Hp) as Hshort. pose proof consts_buf_gt_max as Hbuf.
-    replace (c_recvBufSize - (0 + lenN p) =? 0) with false by lia.
-    apply Forall_cons_iff in Hnd as [Hit Hnd'].
-    destruct it as [k|k].
-    + set (chunk := takeN (N.min k (c_recvBufSize - (0 + lenN p))) rest).
-      assert (Hrest : rest = chunk ++ dropN (lenN chunk) rest) by (symmetry; apply take_drop_N).
-      assert (Hcat' : p ++ chunk ++ dropN (lenN chunk) rest = concat rs) by (rewrite <- Hrest; exact Hcat).
-      destruct (after_read_blocks g rs p chunk (dropN (lenN chunk) rest) (rev ds) Hwf Hcat')
-        as (nb & rs' & p' & Hrs & Hu & Hp' & Har).
-      rewrite Har.
-      assert (Hwr : Forall wf_block rs') by (subst rs; exact (Forall_app_r _ _ _ Hwf)).
-      assert (Hcat2 : p' ++ dropN (lenN chunk) rest = concat rs').
-      { subst rs. rewrite concat_app in Hcat'. rewrite app_assoc, Hu, <- app_assoc in Hcat'.
-        now apply app_inv_head in Hcat'. }
-      replace (rev nb ++ rev ds) with (rev (ds ++ nb)) by apply rev_app_distr.
-      assert (Hc2 : consumed + lenN chunk = lenN (concat (ds ++ nb) ++ p')).
-      { subst consumed. rewrite concat_app, <- app_assoc, <- Hu, !lenN_spec, !app_length. lia. }
-      destruct (IH p' (dropN (lenN chunk) rest) (ds ++ nb) rs' (consumed + lenN chunk) Hnd' Hwr Hcat2 Hp' Hc2)
-        as (ds' & rs'' & p'' & rest' & consumed' & Hrun & Heq & Hcat3 & Hp'' & Hwf'' & Hc' & (mid & Hmid)).
-      exists ds', rs'', p'', rest', consumed'. repeat split; try assumption.
-      * rewrite <- Heq. subst rs. now rewrite app_assoc.
-      * exists (nb ++ mid). rewrite Hmid. now rewrite app_assoc.
-    + cbn [ign_nodata] in Hit. subst k. rewrite N.min_0_l, takeN_0, app_nil_r. change (lenN []) with 0. rewrite dropN_0, N.add_0_r.
-      apply IH; assumption.
+  intros Hwf Hcat Hle. unfold settle, recvOff. cbn [tlvOff unread].
+  pose proof consts_buf_gt_max as Hbuf.
+  destruct (c_recvBufSize - (0 + lenN u) =? 0) eqn:E.
+  - assert (Hcat' : u ++ [] ++ rest = concat rs) by exact Hcat.
+    destruct (after_read_blocks g rs u [] rest acc Hwf Hcat') as (nb & rs' & p' & Hrs & Hu & Hp' & Har).
+    rewrite app_nil_r in Hu.
+    assert (Hwr : Forall wf_block rs') by (subst rs; exact (Forall_app_r _ _ _ Hwf)).
+    pose proof (strictpre_short _ _ Hwr Hp') as Hs.
+    exists nb, rs', p'. split; [exact Hrs|]. split; [exact Hu|]. split.
+    { subst rs. rewrite concat_app in Hcat. rewrite Hu, <- app_assoc in Hcat. now apply app_inv_head in Hcat. }
+    split; [exact Hwr|]. split; [exact Har|]. split; [lia|].
+    intros Hst. pose proof (strictpre_short _ _ Hwf Hst). lia.
+  - exists [], rs, u. cbn [app concat rev]. repeat split; try assumption; try reflexivity. lia.
 Qed.
 
-(* C11 core theorem.  For every list of well-formed blocks (any number: the stream is unbounded, a run observes a finite
-   prefix of it) and every read schedule (any chunking, zero-byte reads, ignorable errors), the framer ends normally,
-   the frames it handed up are a prefix of the blocks - byte-identical, in order, none lost, duplicated, split or
-   merged - and what is left in the buffer is a strict prefix of the next block, moved to the front (tlvOff = 0). *)
-Theorem framing_exact_lemma : forall bs sched, Forall ign_nodata sched -> Forall wf_block bs ->
-  exists frames rs p consumed,
-    run true (concat bs) sched = (SOk, frames, consumed, mkS 0 p) /\
-    bs = frames ++ rs /\ strictpre p rs /\
-    firstn (N.to_nat consumed) (concat bs) = concat frames ++ p.
+(* C11: the run invariant.  ds = blocks delivered so far, rs = blocks not yet delivered, u = the buffer content: a prefix of the
+   bytes of rs (the whole unparsed suffix of what has been received); after a successful read it is a strict prefix of the next
+   block.  b = the buffer is settled on entry. *)
+Lemma run_stream_blocks g : forall sched u rest ds rs consumed b,
+  Forall wf_block rs -> u ++ rest = concat rs -> lenN u <= c_recvBufSize -> (b = true -> strictpre u rs) ->
+  consumed = lenN (concat ds ++ u) ->
+  exists ds' rs' u' rest' consumed',
+    run_stream g sched (mkS 0 u) rest (rev ds) consumed = (SOk, ds', consumed', mkS 0 u') /\
+    ds ++ rs = ds' ++ rs' /\ u' ++ rest' = concat rs' /\ Forall wf_block rs' /\
+    consumed' = lenN (concat ds' ++ u') /\ lenN u' <= c_recvBufSize /\
+    (settled_after b sched = true -> strictpre u' rs') /\ (exists mid, ds' = ds ++ mid).
 Proof.
-  intros bs sched Hnd Hwf. unfold run, s_init.
-  destruct (run_stream_blocks true sched [] (concat bs) [] bs 0 Hnd Hwf eq_refl (or_introl eq_refl) eq_refl)
-    as (ds' & rs' & p' & rest' & consumed' & Hrun & Heq & Hcat & Hp & Hwf' & Hc & _).
-  cbn [rev] in Hrun. exists ds', rs', p', consumed'. repeat split; try assumption.
-  cbn [app] in Heq. subst bs. rewrite concat_app, <- Hcat, app_assoc.
+  induction sched as [|it sched IH]; intros u rest ds rs consumed b Hwf Hcat Hle Hb Hc.
+  - exists ds, rs, u, rest, consumed. cbn [run_stream settled_after fold_left]. rewrite rev_involutive.
+    split; [reflexivity|]. split; [reflexivity|]. split; [exact Hcat|]. split; [exact Hwf|]. split; [exact Hc|]. split; [exact Hle|].
+    split; [exact Hb|]. exists []. now rewrite app_nil_r.
+  - cbn [run_stream].
+    destruct (settle_blocks g rs u rest (rev ds) Hwf Hcat Hle) as (nb0 & rs0 & u0 & Hrs0 & Hu0 & Hcat0 & Hwf0 & Hset & Hlt0 & Hkeep).
+    rewrite Hset. unfold recvOff. cbn [tlvOff unread].
+    replace (c_recvBufSize - (0 + lenN u0) =? 0) with false by lia.
+    replace (rev nb0 ++ rev ds) with (rev (ds ++ nb0)) by apply rev_app_distr.
+    assert (Hc0 : consumed = lenN (concat (ds ++ nb0) ++ u0)).
+    { subst consumed. rewrite concat_app, <- app_assoc, <- Hu0. reflexivity. }
+    assert (Hb0 : b = true -> strictpre u0 rs0).
+    { intros E. destruct (Hkeep (Hb E)) as [-> ->]. cbn [app] in Hrs0. subst rs0. exact (Hb E). }
+    destruct it as [k|k].
+    + set (chunk := takeN (N.min k (c_recvBufSize - (0 + lenN u0))) rest).
+      assert (Hrest : rest = chunk ++ dropN (lenN chunk) rest) by (symmetry; apply take_drop_N).
+      assert (Hcat' : u0 ++ chunk ++ dropN (lenN chunk) rest = concat rs0) by (rewrite <- Hrest; exact Hcat0).
+      destruct (after_read_blocks g rs0 u0 chunk (dropN (lenN chunk) rest) (rev (ds ++ nb0)) Hwf0 Hcat')
+        as (nb & rs' & p' & Hrs & Hu & Hp' & Har).
+      rewrite Har.
+      assert (Hwr : Forall wf_block rs') by (subst rs0; exact (Forall_app_r _ _ _ Hwf0)).
+      assert (Hcat2 : p' ++ dropN (lenN chunk) rest = concat rs').
+      { subst rs0. rewrite concat_app in Hcat'. rewrite app_assoc, Hu, <- app_assoc in Hcat'. now apply app_inv_head in Hcat'. }
+      replace (rev nb ++ rev (ds ++ nb0)) with (rev ((ds ++ nb0) ++ nb)) by apply rev_app_distr.
+      assert (Hc2 : consumed + lenN chunk = lenN (concat ((ds ++ nb0) ++ nb) ++ p')).
+      { rewrite Hc0. rewrite (concat_app (ds ++ nb0) nb), <- app_assoc, <- Hu, !lenN_spec, !app_length. lia. }
+      pose proof (strictpre_short _ _ Hwr Hp') as Hsh. pose proof consts_buf_gt_max as Hbuf.
+      destruct (IH p' (dropN (lenN chunk) rest) ((ds ++ nb0) ++ nb) rs' (consumed + lenN chunk) true Hwr Hcat2 ltac:(lia) (fun _ => Hp') Hc2)
+        as (ds' & rs'' & u'' & rest' & consumed' & Hrun & Heq & Hcat3 & Hwf'' & Hc' & Hle' & Hst' & (mid & Hmid)).
+      exists ds', rs'', u'', rest', consumed'.
+      split; [exact Hrun|]. split; [rewrite <- Heq; subst rs rs0; now rewrite !app_assoc|].
+      split; [exact Hcat3|]. split; [exact Hwf''|]. split; [exact Hc'|]. split; [exact Hle'|].
+      split; [exact Hst'|]. exists (nb0 ++ nb ++ mid). rewrite Hmid. now rewrite !app_assoc.
+    + set (chunk := takeN (N.min k (c_recvBufSize - (0 + lenN u0))) rest).
+      assert (Hrest : rest = chunk ++ dropN (lenN chunk) rest) by (symmetry; apply take_drop_N).
+      assert (Hcl : lenN chunk <= c_recvBufSize - lenN u0).
+      { pose proof (takeN_length_le (N.min k (c_recvBufSize - (0 + lenN u0))) rest). fold chunk in H. lia. }
+      assert (Hcat2 : (u0 ++ chunk) ++ dropN (lenN chunk) rest = concat rs0).
+      { rewrite <- app_assoc, <- Hrest. exact Hcat0. }
+      assert (Hle2 : lenN (u0 ++ chunk) <= c_recvBufSize) by (rewrite !lenN_spec, app_length in *; lia).
+      assert (Hc2 : consumed + lenN chunk = lenN (concat (ds ++ nb0) ++ u0 ++ chunk)).
+      { rewrite Hc0, !lenN_spec, !app_length. lia. }
+      assert (Hb2 : b && (k =? 0) = true -> strictpre (u0 ++ chunk) rs0).
+      { intros E. apply andb_true_iff in E as [E1 E2]. apply N.eqb_eq in E2. subst k.
+        unfold chunk. rewrite N.min_0_l, takeN_0, app_nil_r. exact (Hb0 E1). }
+      destruct (IH (u0 ++ chunk) (dropN (lenN chunk) rest) (ds ++ nb0) rs0 (consumed + lenN chunk) (b && (k =? 0)) Hwf0 Hcat2 Hle2 Hb2 Hc2)
+        as (ds' & rs'' & u'' & rest' & consumed' & Hrun & Heq & Hcat3 & Hwf'' & Hc' & Hle' & Hst' & (mid & Hmid)).
+      exists ds', rs'', u'', rest', consumed'.
+      split; [exact Hrun|]. split; [rewrite <- Heq; subst rs; now rewrite !app_assoc|].
+      split; [exact Hcat3|]. split; [exact Hwf''|]. split; [exact Hc'|]. split; [exact Hle'|].
+      split; [exact Hst'|]. exists (nb0 ++ mid). rewrite Hmid. now rewrite !app_assoc.
+Qed.
+
+(* C11 core theorem, for EVERY read schedule - any chunking, zero-byte reads, failing reads that an ignoreError predicate
+   accepts, with or without data arriving together with the error.  For every list of well-formed blocks (any number: the stream
+   is unbounded, a run observes a finite prefix of it) the framer ends normally; the frames it handed up are a prefix of the blocks
+   - byte-identical, in order, none lost, duplicated, split or merged; the buffer holds, at its front (tlvOff = 0), exactly the
+   unparsed suffix u of the bytes received so far, which is a prefix of the bytes of the remaining blocks; and whenever the
+   schedule leaves the buffer settled (its last data-carrying read was a successful one) u is a strict prefix of the next block. *)
+Theorem framing_exact_lemma : forall bs sched, Forall wf_block bs ->
+  exists frames rs u consumed,
+    run true (concat bs) sched = (SOk, frames, consumed, mkS 0 u) /\
+    bs = frames ++ rs /\
+    firstn (N.to_nat consumed) (concat bs) = concat frames ++ u /\
+    (exists rest, u ++ rest = concat rs) /\
+    (settled_after true sched = true -> strictpre u rs).
+Proof.
+  intros bs sched Hwf. unfold run, s_init.
+  assert (H0 : lenN [] <= c_recvBufSize) by (cbv [lenN lenN_acc]; lia).
+  destruct (run_stream_blocks true sched [] (concat bs) [] bs 0 true Hwf eq_refl H0 (fun _ => or_introl eq_refl) eq_refl)
+    as (ds' & rs' & u' & rest' & consumed' & Hrun & Heq & Hcat & Hwf' & Hc & _ & Hst & _).
+  cbn [rev] in Hrun. exists ds', rs', u', consumed'. split; [exact Hrun|]. cbn [app] in Heq. split; [exact Heq|].
+  split; [|split; [exists rest'; exact Hcat|exact Hst]].
+  subst bs. rewrite concat_app, <- Hcat, app_assoc.
   rewrite Hc, lenN_spec, Nat2N.id, firstn_app, Nat.sub_diag, firstn_all. cbn [firstn]. now rewrite app_nil_r.
 Qed.
 
-(* when the whole stream has been consumed every block has been delivered *)
-Corollary framing_complete_lemma : forall bs sched, Forall ign_nodata sched -> Forall wf_block bs ->
+(* when the whole stream has been consumed and the buffer is settled every block has been delivered *)
+Corollary framing_complete_lemma : forall bs sched, Forall wf_block bs -> settled_after true sched = true ->
   snd (fst (run true (concat bs) sched)) = lenN (concat bs) ->
   fst (fst (fst (run true (concat bs) sched))) = SOk /\ snd (fst (fst (run true (concat bs) sched))) = bs.
 Proof.
-  intros bs sched Hnd Hwf Hall.
-  destruct (framing_exact_lemma bs sched Hnd Hwf) as (frames & rs & p & consumed & Hrun & Hbs & Hp & Hfirst).
+  intros bs sched Hwf Hset Hall.
+  destruct (framing_exact_lemma bs sched Hwf) as (frames & rs & p & consumed & Hrun & Hbs & Hfirst & _ & Hp).
+  specialize (Hp Hset).
   rewrite Hrun in *. cbn [fst snd] in *. split; [reflexivity|].
   subst consumed. rewrite lenN_spec, Nat2N.id, firstn_all in Hfirst.
   rewrite Hbs, concat_app in Hfirst. apply app_inv_head in Hfirst.
@@ -386,17 +442,28 @@ Proof.
     apply app_eq_nil in Hfirst as [Hq' _]. contradiction.
 Qed.
 
-(* compaction never corrupts a partially received block / the buffer never fills: part of the invariant above
-   (tlvOff = 0 and fewer than MaxNDNPacketSize unread bytes after every Read), restated for the final state *)
-Corollary compaction_safe_never_full_lemma : forall bs sched, Forall ign_nodata sched -> Forall wf_block bs ->
+(* compaction never corrupts a partially received block / the buffer never fills: whenever the buffer is settled the parse
+   offset is 0, fewer than MaxNDNPacketSize bytes are unread and the write offset is strictly inside the buffer; and in every
+   case the buffer content stays within the buffer *)
+Corollary compaction_safe_never_full_lemma : forall bs sched, Forall wf_block bs -> settled_after true sched = true ->
   let st := snd (run true (concat bs) sched) in
   tlvOff st = 0 /\ lenN (unread st) < c_MaxNDNPacketSize /\ recvOff st < c_recvBufSize.
 Proof.
-  intros bs sched Hnd Hwf.
-  destruct (framing_exact_lemma bs sched Hnd Hwf) as (frames & rs & p & consumed & Hrun & Hbs & Hp & _).
+  intros bs sched Hwf Hset.
+  destruct (framing_exact_lemma bs sched Hwf) as (frames & rs & p & consumed & Hrun & Hbs & _ & _ & Hp).
+  specialize (Hp Hset).
   rewrite Hrun. cbn [snd tlvOff unread]. unfold recvOff. cbn [tlvOff unread].
   assert (Hwr : Forall wf_block rs) by (subst bs; exact (Forall_app_r _ _ _ Hwf)).
   pose proof (strictpre_short _ _ Hwr Hp). pose proof consts_buf_gt_max. repeat split; lia.
+Qed.
+
+(* schedules whose failing reads carry no data (what net.Conn does) always leave the buffer settled *)
+Definition ign_nodata (it : rditem) : Prop := match it with RIgn k => k = 0 | RReq _ => True end.
+Lemma ign_nodata_settled sched : Forall ign_nodata sched -> settled_after true sched = true.
+Proof.
+  unfold settled_after. induction sched as [|it sched IH]; intros H; [reflexivity|].
+  inversion H as [|? ? Hit Hs]; subst. cbn [fold_left]. destruct it as [k|k]; cbn [settled_step]; [now apply IH|].
+  cbn [ign_nodata] in Hit. subst k. cbn [andb N.eqb]. now apply IH.
 Qed.
 
 (* ------------------------------------------------------------------------------------------------ *)
@@ -493,49 +560,78 @@ Proof.
     + split; [now left|]. split; [intros _; lia|]. split; [assumption|reflexivity].
 Qed.
 
-Definition sinv (s : sstate) : Prop := tlvOff s = 0 /\ lenN (unread s) < c_MaxNDNPacketSize.
+Definition sinv (s : sstate) : Prop := tlvOff s = 0 /\ lenN (unread s) <= c_recvBufSize.
 
-Lemma run_stream_total : forall sched s rest acc consumed, Forall ign_nodata sched ->
+(* one Read (successful, possibly of zero bytes) from a state whose buffer content is at the front *)
+Lemma after_read_total s chunk acc : sinv s -> lenN chunk <= c_recvBufSize - lenN (unread s) -> Forall frame_ok acc ->
+  forall r s' acc', after_read true s chunk acc = (r, s', acc') ->
+  (r = PBreak \/ r = PErr) /\ Forall frame_ok acc' /\ recvOff s' <= c_recvBufSize /\
+  (r = PBreak -> tlvOff s' = 0 /\ lenN (unread s') < c_MaxNDNPacketSize).
+Proof.
+  intros [Hoff Hun] Hchunk Hacc r s' acc' H. unfold after_read in H.
+  destruct (parse_loop true (S (length (unread s ++ chunk))) (tlvOff s) (unread s ++ chunk) acc) as [[[r1 off'] un'] acc1] eqn:Ep.
+  destruct (parse_loop_total _ _ _ _ (Nat.lt_succ_diag_r _) Hacc _ _ _ _ Ep) as (Hr & Hb & Hfr & Hcons).
+  assert (Hlu : lenN (unread s ++ chunk) = lenN (unread s) + lenN chunk) by (rewrite !lenN_spec, app_length; lia).
+  destruct Hr as [-> | ->].
+  - specialize (Hb eq_refl). replace (lenN un' <? c_MaxNDNPacketSize) with true in H by lia. inversion H; subst.
+    pose proof consts_buf_gt_max. split; [now left|]. split; [exact Hfr|]. unfold recvOff. cbn [tlvOff unread].
+    split; [lia|]. intros _. split; [reflexivity|exact Hb].
+  - inversion H; subst. split; [now right|]. split; [exact Hfr|]. unfold recvOff. cbn [tlvOff unread]. split; [lia|discriminate].
+Qed.
+
+Lemma run_stream_total : forall sched s rest acc consumed,
   sinv s -> Forall frame_ok acc ->
   forall res frames c st, run_stream true sched s rest acc consumed = (res, frames, c, st) ->
   (res = SOk \/ res = SErrTooMuch) /\ Forall frame_ok frames /\ recvOff st <= c_recvBufSize.
 Proof.
-  induction sched as [|it sched IH]; intros s rest acc consumed Hnd [Hoff Hun] Hacc res frames c st H.
-  - cbn [run_stream] in H. inversion H; subst. pose proof consts_buf_gt_max.
+  induction sched as [|it sched IH]; intros s rest acc consumed Hinv Hacc res frames c st H.
+  - cbn [run_stream] in H. inversion H; subst. destruct Hinv as [Hoff Hun].
     split; [now left|]. split; [now apply Forall_rev|]. unfold recvOff. lia.
-  - cbn [run_stream] in H. unfold recvOff in H. pose proof consts_buf_gt_max as Hbuf.
-    replace (c_recvBufSize - (tlvOff s + lenN (unread s)) =? 0) with false in H by lia.
-    apply Forall_cons_iff in Hnd as [Hit Hnd'].
+  - cbn [run_stream] in H. pose proof consts_buf_gt_max as Hbuf.
+    (* the zero-length-read iteration *)
+    assert (Hset : exists r0 s0 acc0, settle true s acc = (r0, s0, acc0) /\ (r0 = PBreak \/ r0 = PErr) /\ Forall frame_ok acc0 /\
+                   recvOff s0 <= c_recvBufSize /\ (r0 = PBreak -> sinv s0 /\ (c_recvBufSize - recvOff s0 =? 0) = false)).
+    { unfold settle. destruct Hinv as [Hoff Hun]. unfold recvOff. rewrite Hoff.
+      destruct (c_recvBufSize - (0 + lenN (unread s)) =? 0) eqn:E.
+      - destruct (after_read true s [] acc) as [[r0 s0] acc0] eqn:Ea.
+        destruct (after_read_total s [] acc (conj Hoff Hun) ltac:(cbv [lenN lenN_acc]; lia) Hacc _ _ _ Ea) as (Hr & Hf & Hro & Hpb).
+        exists r0, s0, acc0. split; [reflexivity|]. split; [exact Hr|]. split; [exact Hf|]. split; [exact Hro|].
+        intros Epb. destruct (Hpb Epb) as [H1 H2]. split; [split; [exact H1|lia]|]. unfold recvOff. rewrite H1. lia.
+      - exists PBreak, s, acc. split; [reflexivity|]. split; [now left|]. split; [exact Hacc|].
+        split; [lia|]. intros _. split; [split; assumption|]. rewrite Hoff. exact E. }
+    destruct Hset as (r0 & s0 & acc0 & Hs & Hr0 & Hacc0 & Hro0 & Hpb0). rewrite Hs in H.
+    destruct Hr0 as [-> | ->].
+    2:{ inversion H; subst. split; [now right|]. split; [now apply Forall_rev|exact Hro0]. }
+    destruct (Hpb0 eq_refl) as [[Hoff0 Hun0] Hfree]. rewrite Hfree in H.
+    assert (Hro : recvOff s0 = lenN (unread s0)) by (unfold recvOff; rewrite Hoff0; lia).
     destruct it as [k|k].
-    2:{ cbn [ign_nodata] in Hit. subst k. rewrite N.min_0_l, takeN_0, app_nil_r in H. change (lenN []) with 0 in H. rewrite dropN_0, N.add_0_r in H.
-        eapply (IH (mkS (tlvOff s) (unread s))); [exact Hnd'|split; assumption|exact Hacc|exact H]. }
-    set (chunk := takeN (N.min k (c_recvBufSize - (tlvOff s + lenN (unread s)))) rest) in *.
-    assert (Hchunk : lenN chunk <= c_recvBufSize - lenN (unread s)).
-    { pose proof (takeN_length_le (N.min k (c_recvBufSize - (tlvOff s + lenN (unread s)))) rest). fold chunk in H0. lia. }
-    unfold after_read in H.
-    destruct (parse_loop true (S (length (unread s ++ chunk))) (tlvOff s) (unread s ++ chunk) acc)
-      as [[[r off'] un'] acc'] eqn:Ep.
-    destruct (parse_loop_total _ _ _ _ (Nat.lt_succ_diag_r _) Hacc _ _ _ _ Ep) as (Hr & Hb & Hfr & Hcons).
-    assert (Hlu : lenN (unread s ++ chunk) = lenN (unread s) + lenN chunk) by (rewrite !lenN_spec, app_length; lia).
-    destruct Hr as [-> | ->].
-    + specialize (Hb eq_refl). replace (lenN un' <? c_MaxNDNPacketSize) with true in H by lia.
-      eapply (IH (mkS 0 un')); [exact Hnd'|split; cbn [tlvOff unread]; [reflexivity|exact Hb]|exact Hfr|exact H].
-    + inversion H; subst. split; [now right|]. split; [now apply Forall_rev|].
-      unfold recvOff. cbn [tlvOff unread]. lia.
+    + set (chunk := takeN (N.min k (c_recvBufSize - recvOff s0)) rest) in *.
+      assert (Hchunk : lenN chunk <= c_recvBufSize - lenN (unread s0)).
+      { pose proof (takeN_length_le (N.min k (c_recvBufSize - recvOff s0)) rest) as Ht. fold chunk in Ht. lia. }
+      destruct (after_read true s0 chunk acc0) as [[r s'] acc'] eqn:Ea.
+      destruct (after_read_total s0 chunk acc0 (conj Hoff0 Hun0) Hchunk Hacc0 _ _ _ Ea) as (Hr & Hf & Hro' & Hpb).
+      destruct Hr as [-> | ->].
+      * destruct (Hpb eq_refl) as [H1 H2]. eapply (IH s'); [split; [exact H1|lia]|exact Hf|exact H].
+      * inversion H; subst. split; [now right|]. split; [now apply Forall_rev|exact Hro'].
+    + set (chunk := takeN (N.min k (c_recvBufSize - recvOff s0)) rest) in *.
+      assert (Hchunk : lenN chunk <= c_recvBufSize - lenN (unread s0)).
+      { pose proof (takeN_length_le (N.min k (c_recvBufSize - recvOff s0)) rest) as Ht. fold chunk in Ht. lia. }
+      eapply (IH (mkS (tlvOff s0) (unread s0 ++ chunk))); [|exact Hacc0|exact H].
+      split; cbn [tlvOff unread]; [exact Hoff0|]. rewrite !lenN_spec, app_length in *. lia.
 Qed.
 
-(* No byte stream and no read schedule makes the framer panic or spin: it ends with nil (EOF) or with the
-   "too much data"/"larger than the maximum packet size" error, every frame handed up is between 2 and
-   MaxNDNPacketSize bytes, and the buffer offsets stay inside the buffer (a Read never gets an empty slice). *)
-Theorem stream_total_lemma : forall stream sched, Forall ign_nodata sched ->
+(* No byte stream and no read schedule - failing reads with or without data included - makes the framer panic or spin: it ends
+   with nil (EOF) or with the "too large" error, every frame handed up is between 2 and MaxNDNPacketSize bytes, and the buffer
+   offsets stay inside the buffer. *)
+Theorem stream_total_lemma : forall stream sched,
   let '(res, frames, _, st) := run true stream sched in
   (res = SOk \/ res = SErrTooMuch) /\ Forall frame_ok frames /\ recvOff st <= c_recvBufSize.
 Proof.
-  intros stream sched Hnd. unfold run.
+  intros stream sched. unfold run.
   destruct (run_stream true sched s_init stream [] 0) as [[[res frames] c] st] eqn:E.
-  eapply (run_stream_total sched s_init stream [] 0); [exact Hnd|split; cbn [s_init tlvOff unread]|constructor|exact E].
+  eapply (run_stream_total sched s_init stream [] 0); [split; cbn [s_init tlvOff unread]|constructor|exact E].
   - reflexivity.
-  - unfold c_MaxNDNPacketSize. cbv [lenN lenN_acc]. lia.
+  - cbv [lenN lenN_acc]. pose proof consts_buf_gt_max. lia.
 Qed.
 
 (* the code before the repair (guard = false): witnesses replayed on the real code in corpus/C04_face *)
@@ -644,14 +740,26 @@ Proof. exists 10%Z, 0%Z, [6; 12]%Z. cbn. split; [lia|]. exists 12%Z. split; [tau
 Lemma consts_buf_two_packets : 2 * c_MaxNDNPacketSize <= c_recvBufSize.
 Proof. vm_compute. discriminate. Qed.
 
-Theorem every_iteration_leaves_room_lemma : forall bs sched k, Forall ign_nodata sched -> Forall wf_block bs ->
+Theorem every_iteration_leaves_room_lemma : forall bs sched k, Forall wf_block bs -> settled_after true (firstn k sched) = true ->
   let st := snd (run true (concat bs) (firstn k sched)) in
   tlvOff st = 0 /\ lenN (unread st) < c_MaxNDNPacketSize /\ c_MaxNDNPacketSize <= c_recvBufSize - recvOff st.
 Proof.
-  intros bs sched k Hnd Hwf.
-  assert (Hnd' : Forall ign_nodata (firstn k sched)).
-  { rewrite <- (firstn_skipn k sched) in Hnd. apply Forall_app in Hnd. tauto. }
-  destruct (compaction_safe_never_full_lemma bs (firstn k sched) Hnd' Hwf) as (H1 & H2 & H3).
+  intros bs sched k Hwf Hset.
+  destruct (compaction_safe_never_full_lemma bs (firstn k sched) Hwf Hset) as (H1 & H2 & H3).
   cbv zeta. split; [exact H1|]. split; [exact H2|].
   unfold recvOff in *. rewrite H1 in *. pose proof consts_buf_two_packets. lia.
 Qed.
+
+(* The full-buffer iteration is reachable and harmless: 33 blocks of 8800 bytes; a failing read that carries as much data as fits fills
+   the buffer exactly (32 blocks, nothing parsed yet); the next Read gets an empty slice, the loop parses the 32 blocks and resets the
+   offsets, and the following read - failing or not - gets the rest. *)
+Lemma full_buffer_settles_lemma :
+  let b := mk_block 6 (repeat 1 (N.to_nat 8796)) in
+  let bs := repeat b 33 in
+  lenN b = c_MaxNDNPacketSize /\
+  (let '(r, _, c, st) := run true (concat bs) [RIgn 300000] in (r, c, recvOff st)) = (SOk, c_recvBufSize, c_recvBufSize) /\
+  (let '(r, fr, c, st) := run true (concat bs) [RIgn 300000; RIgn 300000] in (r, frames_eqb fr (repeat b 32), c, recvOff st))
+     = (SOk, true, 290400, 8800) /\
+  (let '(r, fr, c, st) := run true (concat bs) [RIgn 300000; RReq 300000] in (r, frames_eqb fr bs, c, recvOff st))
+     = (SOk, true, 290400, 0).
+Proof. vm_compute. repeat split. Qed.
